@@ -20,10 +20,10 @@ from fractions import Fraction
 import core
 import gen
 
-QUICK_MODULES = ["UnytProofs.C10"] + [f"UnytProofs.C10Tab.{s}{i}" for s in
-                                      ("Cgs", "Mks", "Imperial", "Galactic", "Solar", "Geometrized", "Planck") for i in (1, 2, 3)]
-THOROUGH_MODULES = QUICK_MODULES + [f"UnytProofs.C10Tab.Pre{s}" for s in
-                                    ("Cgs", "Mks", "Imperial", "Galactic", "Solar", "Geometrized", "Planck")]
+# The chunked kernel obligations (UnytProofs/C10Tab/*) are imported by these two modules, whose
+# combined theorems depend on every chunk theorem (so `#print axioms` covers them transitively).
+QUICK_MODULES = ["UnytProofs.C10"]
+THOROUGH_MODULES = ["UnytProofs.C10", "UnytProofs.C10Pre"]
 
 ORACLE = r'''
 import math, sys, warnings
@@ -357,7 +357,7 @@ def run(tier, seed):
         verdict = run_case("builtin", sname, uname, u, x,
                            sample=lambda v: {"system": sname, "unit": uname, "x": x, "verdict": v} if (len(chk.samples) < 5 and v != "closed") or len(chk.samples) < 2 else None)
         if verdict is not None:
-            verdict_lines.append(f"c10.verdict\t{sname}\t{uname}")
+            verdict_lines.append(f"c10.verdict\t{sname}\t{u.expr}")
             verdict_expect.append((sname, uname, verdict))
 
     # ------------------------------------------------------------------ 3. compounds on built-in systems
